@@ -35,7 +35,7 @@ def tproj(t, path):
             return tproj(args[0], ("v:Some", "f:0") + full[2:])
         if args and tuple(full[:2]) == ("v:Some", "f:0") and tag in (("Result", "err"), ("Result", "ok")):
             return tproj(args[0], (("v:Err" if tag[1] == "err" else "v:Ok"), "f:0") + full[2:])
-        return ("call", t[1], t[2], full, t[4])
+        return ("call", t[1], t[2], full) + tuple(t[4:5])  # (block ids are absent from normalised trees)
     if k == "agg":
         # project into the aggregate where possible
         step = path[0]
@@ -508,9 +508,17 @@ def normalise_guard(cond, value, dty="bool"):
         out = [("variant", cond[1], value)]
         # `c.then(|| ..)` / `c.then_some(..)` (possibly `.flatten()`ed) is Some only when c held
         x = inner
-        while x[0] == "call" and x[1] in (("Option", "flatten"),) and x[2]:
-            x = x[2][0]
         some = value == "1" or (isinstance(value, tuple) and value[0] == "not" and "0" in value[1])
+        # x.and_then(f) / x.map(f) / x.filter(p) / x.flatten() / views are Some only when x is
+        while x[0] == "call" and not x[3] and x[2] and (
+                x[1] in (("Option", "flatten"),) or
+                (some and x[1][0] == "Option" and x[1][1] in ("and_then", "map", "filter", "as_ref", "as_mut", "as_deref",
+                                                                "copied", "cloned", "inspect", "zip", "take_if"))):
+            if x[1] == ("Option", "filter"):
+                break  # handled below (its own predicate fact), after which the receiver is Some too
+            if some and x[1] != ("Option", "flatten"):
+                out.append(("variant", x[2][0], "1"))
+            x = x[2][0]
         if x[0] == "call" and x[1] in (("bool", "then"), ("bool", "then_some")) and x[2] and not x[3]:
             if some:
                 out.extend(normalise_guard(x[2][0], "1", "bool"))
@@ -555,6 +563,13 @@ def normalise_guard(cond, value, dty="bool"):
 
 OPTION_CLOSURE_VARIANT = {("Option", "or_else"): "0", ("Option", "unwrap_or_else"): "0",
                           ("Option", "map"): "1", ("Option", "and_then"): "1"}
+# (consumer, argument position of the closure) -> variant of the receiver under which it runs
+CLOSURE_RUNS_WHEN = {(("Option", "or_else"), 1): "0", (("Option", "unwrap_or_else"), 1): "0",
+                     (("Option", "map"), 1): "1", (("Option", "and_then"), 1): "1",
+                     (("Option", "map_or_else"), 1): "0", (("Option", "map_or_else"), 2): "1",
+                     (("Option", "map_or"), 2): "1", (("Option", "is_some_and"), 1): "1",
+                     (("Option", "filter"), 1): "1", (("Option", "inspect"), 1): "1",
+                     (("Option", "ok_or_else"), 1): "0", (("Option", "get_or_insert_with"), 1): "0"}
 
 
 def edge_facts(ctx, s):
@@ -610,13 +625,15 @@ def facts_at(ctx, bb, _depth=0):
                 cond = operand_tree(ctx.parent, t["args"][0])
                 for f in normalise_guard(cond, "1", "bool"):
                     out.append(f + (("parent", pb),))
-            elif ctx.consumer and ctx.consumer[1] in OPTION_CLOSURE_VARIANT and \
-                    (len(ctx.consumer) < 3 or ctx.consumer[2] == 1):
+            elif ctx.consumer and (ctx.consumer[1], ctx.consumer[2] if len(ctx.consumer) >= 3 else 1) in CLOSURE_RUNS_WHEN:
                 # opt.or_else(|| ..) runs the closure only when opt is None; opt.map(|x| ..) only
-                # when it is Some
+                # when it is Some; opt.map_or_else(d, f) runs d when None and f when Some
                 t = ctx.parent.body.term(pb)
                 recv = operand_tree(ctx.parent, t["args"][0])
-                out.append(("variant", recv, OPTION_CLOSURE_VARIANT[ctx.consumer[1]], ("parent", pb)))
+                val = CLOSURE_RUNS_WHEN[(ctx.consumer[1], ctx.consumer[2] if len(ctx.consumer) >= 3 else 1)]
+                _FACTS[0] = ctx.body.facts
+                for f in normalise_guard(("discr", recv), val, "isize"):
+                    out.append(f + (("parent", pb),))
     return out
 
 
@@ -1066,6 +1083,15 @@ def expand(facts, t, depth=0):
         out = {NONE}
         for r in apply_fn(facts, a[1], [], depth + 1):
             out.add(("agg", "Option::Some", (r,), ()))
+        return out
+    if tag == ("Option", "map_or") and len(a) == 3:
+        out = {a[1]}
+        for x in expand(facts, a[0], depth + 1):
+            if x == NONE:
+                continue
+            pay = x[2][0] if is_agg(x, "Option::Some") else tproj(x, ("v:Some", "f:0"))
+            for r in apply_fn(facts, a[2], [pay], depth + 1):
+                out.add(r)
         return out
     if tag == ("Option", "unwrap_or_else") and len(a) == 2:
         out = set()
